@@ -361,6 +361,26 @@ def _choose_durations(lattice, per_sec, rng):
     return chosen
 
 
+def _choose_long(lattice, n, rng):
+    """n configurations of the day-long lattice: start seconds spread over 0..59, both steps, at
+    least half of them containing a request of a whole number of days."""
+    by_sec: dict = {}
+    for r in lattice:
+        by_sec.setdefault(r["startSec"], []).append(r)
+    secs = sorted(by_sec)
+    chosen = []
+    for j in range(n):
+        sec = secs[(j * 5 + 1 + (j * 5) // len(secs)) % len(secs)]
+        pool = sorted(by_sec[sec], key=lambda r: (r["dt"], r["reqs"]))
+        rng.shuffle(pool)
+        want_days = j % 2 == 0
+        cand = [r for r in pool if any(D >= 86400 for D in r["reqs"])
+                and any(D % 86400 == 0 for D in r["reqs"]) == want_days
+                and r["dt"] == (3600, 7200)[(j // 2) % 2]]
+        chosen.append((cand or pool)[0])
+    return chosen
+
+
 def _duration_tasks(chosen, starts, rng):
     tasks = []
     kinds = ["year", "month", "leapday", "day"]
@@ -480,7 +500,8 @@ def run(ctx: Ctx):
                 "(year/month/leap-day/ordinary day ends, by the spec's classification) + every TLC second tick; "
                 "a case = one (day, list of seconds) or one (boundary day, 2-hour range) or one tick; durations: "
                 "stratified sample of the Durations.tla lattice (every start second, all steps, 1-3 calls, multiples "
-                "and non-multiples of the step), each run via 'api' and via 'cli'; no trivial cases are generated")
+                "and non-multiples of the step) plus requests of 12 h .. 4 d (1 d, 1 d 7.5 h, 2 d, ...) with steps of "
+                "1-2 h, each run via 'api' and via 'cli'; no trivial cases are generated")
     ctx.assumptions = [
         "Julian dates compared with the spec's exact day number + second/86400 to 1e-9 d (2 ulp of a float JD)",
         "calendar seconds returned as floats and scenario-second offsets compared to 1e-4 s (a float JD resolves 4e-5 s)",
@@ -498,10 +519,12 @@ def run(ctx: Ctx):
     # the worker processes are forked before any thread exists
     pool = mp.get_context("fork").Pool(nproc, initializer=_init_worker)
     try:
-        with ThreadPoolExecutor(4) as ex:
+        with ThreadPoolExecutor(5) as ex:
             f_walk = ex.submit(cal.run_walk, ctx.sub("walk"), w)
             f_sec = ex.submit(cal.run_seconds, sec_cfg, ctx.sub("seconds"), w)
             f_dur = ex.submit(tlc.run_tlc, "Durations", dur_cfg, ctx.sub("durations"), workers=w, timeout=1500)
+            f_long = ex.submit(tlc.run_tlc, "Durations", "Durations_long_quick.cfg" if quick else "Durations_long_thorough.cfg",
+                               ctx.sub("durations_long"), workers=2, timeout=1500)
             f_mut = ex.submit(_spec_mutant, ctx.sub("dur_mutant"))
             # -- the calendar table; the sweep of instants starts as soon as it is there
             walk_res, days = f_walk.result()
@@ -536,7 +559,11 @@ def run(ctx: Ctx):
             if not lattice:
                 raise tlc.MachineryError("Durations.tla emitted no configuration")
             starts = _start_instants(ticks, rng)
-            chosen = _choose_durations(lattice, 2 if quick else 10, rng)
+            long_res = cal.spec_fail(f_long.result(), "Durations.tla lattice (requests of a day and more)")
+            lattice_long = long_res.tagged("DUR")
+            if not lattice_long:
+                raise tlc.MachineryError("Durations.tla (long requests) emitted no configuration")
+            chosen = _choose_long(lattice_long, 12 if quick else 60, rng) + _choose_durations(lattice, 2 if quick else 10, rng)
             dur_tasks = _duration_tasks(chosen, starts, rng)
             phase["lattice_and_ticks"] = round(time.time() - t0, 1)
             dur_async = pool.map_async(_dispatch, dur_tasks, chunksize=2)
@@ -546,6 +573,7 @@ def run(ctx: Ctx):
         ctx.add_tlc(walk_res, "Calendar.tla day walk 1901-2099 (calendar invariants, RoundTrip, Monotone; per-day table)")
         ctx.add_tlc(sec_res, "Calendar.tla second ticks across boundary instants (Monotone, RoundTrip, TickLength)")
         ctx.add_tlc(dur_res, "Durations.tla configuration lattice (StepsHonoured, EpochsAreStartPlusKDt, ...)")
+        ctx.add_tlc(long_res, "Durations.tla lattice of requests of 12 h .. 4 d with steps of 1-2 h")
         results = {r["id"]: r for r in sweep_async.get(timeout=6000)}
         phase["instants_swept"] = round(time.time() - t0, 1)
         runs_raw = dur_async.get(timeout=6000)
@@ -627,7 +655,8 @@ def run(ctx: Ctx):
     ctx.extra["phase_done_at_s"] = phase
     ctx.extra["timed_runs"] = len(dur_tasks)
     ctx.extra["timed_runs_rejected"] = len(rejected)
-    ctx.extra["duration_lattice_points_emitted"] = len(lattice)
+    ctx.extra["duration_lattice_points_emitted"] = len(lattice) + len(lattice_long)
+    ctx.extra["timed_runs_of_a_day_or_more"] = sum(1 for t in dur_tasks if max(t["reqs"]) >= 86400)
     ctx.extra["spec_mutants_killed"] = {"Durations.InvertStartBySecTruncation": killed}
 
 
